@@ -29,7 +29,7 @@ UnpairedPlain == (\A i \in DOMAIN ML : ~ML[i].p => NoEmph(ML[i])) /\ (\A j \in D
 SoundPairs == SameNumberPaired => \A k \in DOMAIN PairedOf(ML) : Sound(PairedOf(ML)[k], PairedOf(PL)[k])
 IdenticalPlain == SameNumberPaired => \A k \in DOMAIN PairedOf(ML) :
                      Identical(PairedOf(ML)[k], PairedOf(PL)[k]) => NoEmph(PairedOf(ML)[k]) /\ NoEmph(PairedOf(PL)[k])
-OneRun == (Len(ms) = 1 /\ Len(ps) = 1) => SingleRun(re, ML[1], PL[1])
+OneRun == (Len(ms) = 1 /\ Len(ps) = 1) => (SingleRun(re, ML[1], PL[1]) /\ JoinedRun(re, ML[1], PL[1]))
 Min2(a, b) == IF a < b THEN a ELSE b
 AtOnePositional == thr = 100 => /\ \A i \in DOMAIN ML : ML[i].p = (i <= Min2(Len(ms), Len(ps)))
                                 /\ \A j \in DOMAIN PL : PL[j].p = (j <= Min2(Len(ms), Len(ps)))
